@@ -350,4 +350,121 @@ theorem santaLucia_congr_upper (n : Num α) {s t : Str} (h : upper s = upper t) 
 
 end generic
 
+/-! ### weak monotonicity from monotone arithmetic (the argument for binary64)
+
+Every binary64 operation rounds a monotone real function to nearest, so it is monotone itself; a
+sound `log` is monotone too.  `MonoArith n` lists exactly the monotonicity facts the argument uses.
+They are ASSUMPTIONS about the arithmetic (for `Float` they cannot be proved in Lean — the type is
+opaque — and for Go's `math.Log` monotonicity is not documented); for `ℝ` they are theorems
+(`monoArith_real`), so the list is consistent. -/
+
+section mono
+variable {α : Type} [Add α] [Sub α] [Mul α] [Div α] [LE α] [LT α]
+
+structure MonoArith (n : Num α) : Prop where
+  le_refl : ∀ a : α, a ≤ a
+  le_trans : ∀ {a b c : α}, a ≤ b → b ≤ c → a ≤ c
+  add_le_add_left : ∀ {a b : α} (c : α), a ≤ b → c + a ≤ c + b
+  add_le_add_right : ∀ {a b : α} (c : α), a ≤ b → a + c ≤ b + c
+  sub_le_sub_right : ∀ {a b : α} (c : α), a ≤ b → a - c ≤ b - c
+  mul_le_mul_left : ∀ {a b c : α}, n.ofInt 0 ≤ c → a ≤ b → c * a ≤ c * b
+  mul_le_mul_right : ∀ {a b c : α}, n.ofInt 0 ≤ c → a ≤ b → a * c ≤ b * c
+  div_le_div_right : ∀ {a b c : α}, n.ofInt 0 < c → a ≤ b → a / c ≤ b / c
+  /-- a non-positive numerator over negative denominators: `a/D` grows with `D` -/
+  div_le_div_left : ∀ {a d d' : α}, a ≤ n.ofInt 0 → d ≤ d' → d' < n.ofInt 0 → a / d ≤ a / d'
+  log_mono : ∀ {a b : α}, n.ofInt 0 < a → a ≤ b → n.log a ≤ n.log b
+
+theorem nnLoop_mono {n : Num α} (A : MonoArith n) : ∀ (u : Str) (h s₁ s₂ : α), s₁ ≤ s₂ →
+    (nnLoop n u (h, s₁)).1 = (nnLoop n u (h, s₂)).1 ∧ (nnLoop n u (h, s₁)).2 ≤ (nnLoop n u (h, s₂)).2
+  | [], _, _, _, hs => ⟨rfl, hs⟩
+  | [_], _, _, _, hs => ⟨rfl, hs⟩
+  | x :: y :: rest, h, s₁, s₂, hs => by
+    simp only [nnLoop]
+    exact nnLoop_mono A (y :: rest) _ _ _ (A.add_le_add_right _ hs)
+
+/-- The salt step and the loop: a larger salt effect gives the same dH and a dS at least as large. -/
+theorem coreUpper_mono {n : Num α} (A : MonoArith n) (u : Str) {na na' mg mg' : α}
+    (hna : na ≤ na') (hmg : mg ≤ mg') (h140 : n.ofInt 0 ≤ n.ofInt 140)
+    (hK : n.ofInt 0 ≤ n.dec 368 3 * n.ofInt ((u.length : Int) - 1))
+    (hsalt : n.ofInt 0 < na + mg * n.ofInt 140) {k k' : Core α}
+    (hk : coreUpper n u na mg = .ok k) (hk' : coreUpper n u na' mg' = .ok k') :
+    k.dH = k'.dH ∧ k.symmetryFactor = k'.symmetryFactor ∧ k.dS ≤ k'.dS := by
+  unfold coreUpper at hk hk'
+  cases hl : u.getLast? with
+  | none => rw [hl] at hk; cases hk
+  | some l =>
+    rw [hl] at hk hk'
+    simp only [Outcome.ok.injEq] at hk hk'
+    subst hk; subst hk'
+    have hs : na + mg * n.ofInt 140 ≤ na' + mg' * n.ofInt 140 :=
+      A.le_trans (A.add_le_add_right _ hna) (A.add_le_add_left _ (A.mul_le_mul_right h140 hmg))
+    have hlog := A.log_mono hsalt hs
+    have hterm := A.mul_le_mul_left hK hlog
+    obtain ⟨e1, e2⟩ := nnLoop_mono A u _ _ _ (A.add_le_add_left _ hterm)
+    exact ⟨e1, rfl, e2⟩
+
+/-- **Weak monotonicity of the model in all three concentrations at once**, for any arithmetic with
+monotone operations, under sign conditions on the COMPUTED values (all decidable on concrete
+binary64 inputs; over ℝ they are `exactDH_neg`, `exactDen_neg` …). -/
+theorem santaLucia_weak_mono {n : Num α} (A : MonoArith n) (s : Str) {c c' na na' mg mg' : α}
+    (hc : c ≤ c') (hna : na ≤ na') (hmg : mg ≤ mg')
+    (h140 : n.ofInt 0 ≤ n.ofInt 140) (hR : n.ofInt 0 ≤ n.dec 19872 4)
+    (hK : n.ofInt 0 ≤ n.dec 368 3 * n.ofInt (((upper s).length : Int) - 1))
+    (hsalt : n.ofInt 0 < na + mg * n.ofInt 140)
+    {k k' : Core α} (hk : santaLuciaCore n s na mg = .ok k) (hk' : santaLuciaCore n s na' mg' = .ok k')
+    (hf : n.ofInt 0 < k.symmetryFactor) (hcf : n.ofInt 0 < c / k.symmetryFactor)
+    (hH : k.dH * n.ofInt 1000 ≤ n.ofInt 0)
+    (hD : k'.dS + n.dec 19872 4 * n.log (c' / k'.symmetryFactor) < n.ofInt 0)
+    {t h S t' h' S' : α} (hr : santaLucia n s c na mg = .ok (t, h, S))
+    (hr' : santaLucia n s c' na' mg' = .ok (t', h', S')) :
+    h = h' ∧ S ≤ S' ∧ t ≤ t' := by
+  unfold santaLuciaCore at hk hk'
+  obtain ⟨eH, eF, eS⟩ := coreUpper_mono A (upper s) hna hmg h140 hK hsalt hk hk'
+  unfold santaLucia santaLuciaCore at hr hr'
+  rw [hk] at hr; rw [hk'] at hr'
+  simp only [Outcome.map, Outcome.ok.injEq, Prod.mk.injEq] at hr hr'
+  obtain ⟨rfl, rfl, rfl⟩ := hr
+  obtain ⟨rfl, rfl, rfl⟩ := hr'
+  refine ⟨eH, eS, ?_⟩
+  rw [← eF] at hD
+  rw [← eF, ← eH]
+  have h1 : c / k.symmetryFactor ≤ c' / k.symmetryFactor := A.div_le_div_right hf hc
+  have h2 := A.mul_le_mul_left hR (A.log_mono hcf h1)
+  have h3 : k.dS + n.dec 19872 4 * n.log (c / k.symmetryFactor)
+      ≤ k'.dS + n.dec 19872 4 * n.log (c' / k.symmetryFactor) :=
+    A.le_trans (A.add_le_add_left _ h2) (A.add_le_add_right _ eS)
+  exact A.sub_le_sub_right _ (A.div_le_div_left hH h3 hD)
+
+end mono
+
+/-- the assumptions hold for exact real arithmetic (consistency of `MonoArith`) -/
+theorem monoArith_real : MonoArith realNum where
+  le_refl := le_refl
+  le_trans := le_trans
+  add_le_add_left := fun c h => by linarith
+  add_le_add_right := fun c h => by linarith
+  sub_le_sub_right := fun c h => by linarith
+  mul_le_mul_left := fun {a b c} hc h => by
+    have : (0 : ℝ) ≤ c := by simpa [realNum] using hc
+    exact mul_le_mul_of_nonneg_left h this
+  mul_le_mul_right := fun {a b c} hc h => by
+    have : (0 : ℝ) ≤ c := by simpa [realNum] using hc
+    exact mul_le_mul_of_nonneg_right h this
+  div_le_div_right := fun {a b c} hc h => by
+    have : (0 : ℝ) < c := by simpa [realNum] using hc
+    exact div_le_div_of_nonneg_right h this.le
+  div_le_div_left := fun {a d d'} ha h hd' => by
+    have ha' : a ≤ (0 : ℝ) := by simpa [realNum] using ha
+    have hd0 : d' < (0 : ℝ) := by simpa [realNum] using hd'
+    have hd : d < 0 := lt_of_le_of_lt h hd0
+    rw [div_eq_mul_inv, div_eq_mul_inv]
+    have hinv : d'⁻¹ ≤ d⁻¹ := by
+      rcases eq_or_lt_of_le h with rfl | hlt
+      · exact le_refl _
+      · exact ((inv_lt_inv_of_neg hd0 hd).2 hlt).le
+    exact mul_le_mul_of_nonpos_left hinv ha'
+  log_mono := fun {a b} ha h => by
+    have : (0 : ℝ) < a := by simpa [realNum] using ha
+    exact Real.log_le_log this h
+
 end PolyVerif.Lemmas.Thermo
